@@ -11,6 +11,12 @@ Line protocol for C14 (Float, bit patterns `x<16 hex>`):
   `val <4 doubles> mom <16 doubles> psph <4 doubles>`.
 * `post tol=<f> dim=<n> a=<16 doubles> b=<4 doubles>` — `post_loop` of order1 on
   given moment matrix / right-hand side; answer `val <4 doubles>`.
+* `S prop=<name> n=<nat> names=<names> vals=<fl> old=<fl>` — the staging loop of
+  `interpolate(prop)` for ONE source array with `n` particles whose property
+  table is `names` (comma separated, `_` = none) with the values `vals`
+  (`n` doubles per name, concatenated in the order of `names`) and whose
+  `temp_prop` holds `old` before the call.  Answer `temp <fl>`: the contents of
+  `temp_prop` afterwards.
 * bindings (stateful): `B init arrays=<nats> pts=<nat>`, `B setpts p=<nat>`,
   `B updarr arrays=<nats>`, `B update`, `B mutate o=<nat>`, and for SPHEvaluator `B initeval objs=<nats>`,
   `B evalupdarr objs=<nats>`; each answers
@@ -59,6 +65,31 @@ def handlePost (kv : List (String × String)) : String :=
     else "val " ++ showFl (order1Post tol dim a.toArray b.toArray).toList
   | _, _, _, _ => "bad-op"
 
+/-- split `vals` into `k` consecutive chunks of `n` entries; `none` unless it is
+exactly `k*n` long -/
+def chunks (n : Nat) : Nat → List Float → Option (List (List Float))
+  | 0, [] => some []
+  | 0, _ :: _ => none
+  | k + 1, l =>
+    if l.length < n then none
+    else (chunks n k (l.drop n)).map (fun t => l.take n :: t)
+
+def handleS (kv : List (String × String)) : String :=
+  match lookup kv "prop", (lookup kv "n") >>= parseNat?,
+        (lookup kv "names") >>= parseList? (fun s => some s),
+        (lookup kv "vals") >>= parseList? parseFloatBits?,
+        (lookup kv "old") >>= parseList? parseFloatBits? with
+  | some prop, some n, some names, some vals, some old =>
+    if old.length ≠ n then "bad-op" else
+    match chunks n names.length vals with
+    | none => "bad-op"
+    | some cs =>
+      let a : ArrData Float := { n := n, props := names.zip cs }
+      -- the array is object 0; its `temp_prop` holds `old` before the call
+      let t := stage (fun _ => a) prop [0] (fun _ => old)
+      "temp " ++ showFl (t 0)
+  | _, _, _, _, _ => "bad-op"
+
 def showNats (l : List Nat) : String := showList toString l
 
 def showReads (s : IState) : String :=
@@ -99,6 +130,7 @@ def handle (st : Option IState) (line : String) : Option IState × String :=
   match tokens line with
   | "pt" :: rest => (st, handlePt (kvs rest))
   | "post" :: rest => (st, handlePost (kvs rest))
+  | "S" :: rest => (st, handleS (kvs rest))
   | "B" :: rest => handleB st rest
   | _ => (st, "bad-op")
 
